@@ -334,6 +334,7 @@ package mcp
 //@   ensures[C07 reader-stops-only-when-input-ended-or-closed] rddead || t.closed
 //@ func sseClientTransport.readSSE
 //@   loop 1 increases[C07 every-iteration-consumes-a-line] rdprog
+//@   loop 1 invariant[C07 the-data-of-an-event-is-one-line-of-the-stream-never-a-join-of-several] !contains(eventData, "\n") && !contains(eventType, "\n")
 //@ func streamableHTTPClientTransport.handleGetSSEEvents
 //@   loop 1 increases[C07 every-iteration-consumes-a-line] rdprog
 //@   ensures[C07 listening-stream-reader-stops-only-when-stream-or-context-ended] rddead || result != nil
